@@ -3,7 +3,8 @@
 
 For a server and a set of files it asks documentSymbol per file, workspace/symbol
 for "", and for every identifier occurrence definition, hover, references,
-completion (at the end of the identifier) and signatureHelp (at call sites), plus the
+completion (at the end of the identifier) and signatureHelp (at call sites) -- and, for callers that
+add "implementation" to `requests` (C10), textDocument/implementation --, plus the
 diagnostics of every file (obtained with didSave, which is idempotent on unchanged
 files).  The result is normalised: paths relative to the root, lists that LSP
 treats as unordered sorted.
@@ -117,6 +118,8 @@ def run_battery(s: Server, root: str, files, *, fixed=None, requests=("definitio
                 out["def:" + k] = norm(s.result("textDocument/definition", Server.tdpp(path, ln, mid)))
             if "hover" in requests:
                 out["hover:" + k] = norm(s.result("textDocument/hover", Server.tdpp(path, ln, mid)))
+            if "implementation" in requests:  # opt-in: not part of the default battery
+                out["impl:" + k] = norm(s.result("textDocument/implementation", Server.tdpp(path, ln, mid)))
             if "references" in requests:
                 r = s.result("textDocument/references", Server.tdpp(path, ln, mid, context={"includeDeclaration": True}))
                 out["refs:" + k] = sorted(norm(r), key=_key) if isinstance(r, list) else norm(r)
